@@ -8,6 +8,7 @@ import (
 	"errors"
 	"fmt"
 	"io"
+	"sort"
 	"strconv"
 
 	"github.com/luthersystems/elps/lisp"
@@ -370,8 +371,19 @@ func (s *Serializer) loadInterfaceOpts(x interface{}, opts LoadOpts) *lisp.LVal 
 			return lisp.Errorf("allocation size %d exceeds maximum (%d)", len(x), maxAlloc)
 		}
 		m := SortedMap(x)
-		for k, v := range m {
-			lval := s.loadInterfaceOpts(v, opts)
+		// Visit the members in sorted key order.  The loop returns the FIRST
+		// member that fails to load, so ranging over the map made the reported
+		// error -- and with it the message a handler sees -- depend on Go's
+		// randomised map iteration order whenever two members fail:
+		// {"a":99999999999999999999,"b":88888888888888888888} under
+		// :exact-integers named a different literal from run to run.
+		keys := make([]string, 0, len(m))
+		for k := range m {
+			keys = append(keys, k)
+		}
+		sort.Strings(keys)
+		for _, k := range keys {
+			lval := s.loadInterfaceOpts(m[k], opts)
 			if lval.Type == lisp.LError {
 				return lval
 			}
